@@ -29,11 +29,11 @@ def decOptInt64 : Option JVal → Dec (Option Int)
   | none | some .null => .ok none
   | v => (decInt64 v).map some
 
-/-- What the real code does with the cursor `null` (base64 `bnVsbA`): the second
-    `json.Unmarshal(res, &q)` sets the interface `q` to nil and the type assertion
-    `q.(*ColumnPaginatedQuery[…])` panics.  (After the proposed fix this is
-    `.clientError "invalid cursor"`.) -/
-def cursorNullOutcome : Res CursorQ := .fault "panic: interface conversion: interface is nil"
+/-- The cursor `null` (base64 `bnVsbA`): the second `json.Unmarshal(res, &q)` sets
+    the interface `q` to nil; since the fix of cursor.go (`if q == nil`) this is
+    answered "invalid cursor" (before it, the type assertion on the nil interface
+    panicked: this line was `.fault …`). -/
+def cursorNullOutcome : Res CursorQ := .clientError "invalid cursor"
 
 def decodeCursorFields (filtersOk : Bool) (kvs : List (String × JVal)) : Dec CursorQ := do
   -- first pass: `aux{Offset *uint64}`
@@ -51,6 +51,8 @@ def decodeCursorFields (filtersOk : Bool) (kvs : List (String × JVal)) : Dec Cu
     let bottom ← decOptBigInt (getField kvs "bottom")
     let paginationID ← decOptBigInt (getField kvs "paginationID")
     let reverse ← decBool (getField kvs "reverse")
+    -- a column cursor must carry its order (the column paginator dereferences it)
+    if order.isNone then throw "invalid cursor: missing order"
     pure { isOffset := false, column, order, pageSize, offset := 0, bottom, paginationID, reverse }
 
 /-- `UnmarshalCursor` from the decoded JSON tree. -/
